@@ -18,6 +18,7 @@ typedef struct {
     unsigned kinds;                      /* bitmask of source kinds (G_SRC) */
     unsigned srcflags;                   /* bitmask of source flag combinations offered: bit f = flags value f (1 AUTOCLOSE, 2 ONESHOT, 4 DUP, 8 AUTOFREE user data) */
     int keylimit;                        /* keys per source kind (0 = the whole menu) */
+    unsigned variants;                   /* 1: one-shot subscriptions; 2: context name/userdata ownership flags; 4: DUP path sources */
 } profile_t;
 static profile_t P;
 
@@ -29,7 +30,7 @@ static int enabled_ops(op_t *o, int max) {
     int n = 0; int dev = ndev_of(&cur_hist);
     int NMO = P.nmods;
     if (P.groups & G_CTX) {
-        if (!CX.exists) { EMIT(O_CTX_REG, 0, 0); EMIT(O_CTX_REG, 0, 1); }
+        if (!CX.exists) { EMIT(O_CTX_REG, 0, 0); EMIT(O_CTX_REG, 0, 1); if (P.variants & 2) { EMIT(O_CTX_REG, 0, 0, 1); EMIT(O_CTX_REG, 0, 1, 2); } }
         else if (P.groups & G_ILLEGAL) EMIT(O_CTX_REG, 0, 0);
         if (CX.exists || (P.groups & G_ILLEGAL)) EMIT(O_CTX_DEREG);
         if (CX.exists && !CX.finalized) EMIT(O_FINALIZE);
@@ -68,6 +69,7 @@ static int enabled_ops(op_t *o, int max) {
                 if (!m->sub[p].present || ill) {
                     EMIT(O_SUB, s, p, PR_NORM);
                     if (P.groups & G_PRIO) { EMIT(O_SUB, s, p, PR_LOW); EMIT(O_SUB, s, p, PR_HIGH); }
+                    if (P.variants & 1) EMIT(O_SUB, s, p, PR_NORM | 4);      /* one-shot subscription */
                 }
                 if (P.groups & G_SUBDUP) {            /* M_SRC_DUP topics, and re-subscription with other flags (replacement path) */
                     EMIT(O_SUB, s, p, PR_NORM | 16); EMIT(O_SUB, s, p, PR_HIGH | 16); EMIT(O_SUB, s, p, PR_NORM | 32); if (m->sub[p].present && m->sub[p].af) { EMIT(O_SUB, s, p, m->sub[p].prio | (m->sub[p].dup ? 16 : 0) | 32 | 64); EMIT(O_SUB, s, p, (m->sub[p].prio == PR_NORM ? PR_HIGH : PR_NORM) | 32 | 64); }
@@ -86,9 +88,10 @@ static int enabled_ops(op_t *o, int max) {
                 if (kd == K_FD && !UFD[key].open_rd) continue;
                 if (kd == K_TASK && (st == S_RUNNING || st == S_ZOMBIE)) continue;          /* a task would start running on a pool thread: kept out of the sequential world */
                 if (idx >= 0 && kd == K_FD && (m->src[idx].flags & 4)) continue;
-                if (idx < 0 || ill || (P.groups & G_REREG)) for (int f = 0; f < 16; f++) if (P.srcflags & (1u << f)) {      /* G_REREG: a present key is registered again (must fail with EEXIST and change nothing) */
+                if (idx < 0 || ill || (P.groups & G_REREG)) for (int f = 0; f < 16; f++) if ((P.srcflags & (1u << f)) || (f == 4 && kd == K_PATH && (P.variants & 4))) {      /* G_REREG: a present key is registered again (must fail with EEXIST and change nothing) */
                     if (idx >= 0 && (f & 4)) continue;
-                    if ((f & 5) && kd != K_FD) continue;
+                    if ((f & 1) && kd != K_FD) continue;
+                    if ((f & 4) && kd != K_FD && kd != K_PATH) continue;      /* DUP: descriptors and path strings */
                     if ((f & 8) && kd != K_FD && kd != K_TMR) continue;      /* auto-free user data: one code path for all kinds */
                     if ((P.groups & G_ENVX) && kd >= K_SGN && kd <= K_PID) { int others = 0; for (int t = 0; t < NM; t++) if (t != s && find_src(t, kd, key) >= 0) others = 1; if (others) continue;      /* one watcher per signal/path/pid: a signal is consumed by the first reader */
                         if (kd == K_PID && (!(f & 2) || child_dead[key])) continue; }      /* an exited process stays readable for ever: one-shot only */
@@ -149,7 +152,7 @@ static void fmt_op(op_t op, char *b, size_t cap) {
     const char *A = op.a < NM ? MLABEL[op.a] : "?", *B = op.b < NM ? MLABEL[op.b] : "?";
     static const char *prn[] = { "LOW", "NORM", "HIGH" }, *evn[] = { "no-eval", "eval=true", "eval=false" };
     switch (op.c) {
-    case O_CTX_REG: snprintf(b, cap, "ctx_register(%s)", op.b ? "PERSIST" : "0"); break;
+    case O_CTX_REG: snprintf(b, cap, "ctx_register(%s%s)", op.b ? "PERSIST" : "0", op.d == 1 ? ",NAME_DUP" : op.d == 2 ? ",NAME_AUTOFREE|USERDATA_AUTOFREE" : ""); break;
     case O_CTX_DEREG: snprintf(b, cap, "ctx_deregister"); break;
     case O_FINALIZE: snprintf(b, cap, "ctx_finalize"); break;
     case O_DISPATCH: snprintf(b, cap, "dispatch"); break;
@@ -195,12 +198,13 @@ static void fmt_op(op_t op, char *b, size_t cap) {
 static void canon(char *b, size_t cap) {
     size_t p = 0;
 #define AP(...) do { if (p < cap) p += snprintf(b + p, cap - p, __VA_ARGS__); } while (0)
-    AP("cx%d%d%d%d%d%d%d|", CX.exists, CX.persist, CX.looping, CX.quit, CX.quit ? CX.quit_code : 0, CX.finalized, CX.tick);
+    AP("cx%d%d%d%d%d%d%d%d|", CX.exists, CX.persist, CX.looping, CX.quit, CX.quit ? CX.quit_code : 0, CX.finalized, CX.tick, CX.exists ? CX.var : 0);
     for (int s = 0; s < NM; s++) { mod_t *m = &MD[s];
         AP("M%d:%d%d%d%d%d%d:L%x:", s, m->present, m->st, m->extra, m->evalmode, m->startret, m->flagsidx, m->present ? m->life : 0);
         for (int k = 0; k < NCB; k++) AP("%d.%d,", m->armed[k].act, m->armed[k].arg);
         AP("s"); for (int q = 0; q < NPAT; q++) if (m->sub[q].present) AP("%d%d%d%d%d%d,", q, m->sub[q].prio, m->sub[q].oneshot, m->sub[q].upver, m->sub[q].dup, m->sub[q].af);
-        AP("m"); for (int k = 0; k < m->nmb; k++) { msg_t *g = &MSG[m->mb[k].msg]; AP("%d.%d.%d.%d.%d.%x.%d,", g->sender + 1, g->topic, g->sys, g->autofree, m->mb[k].optional, m->mb[k].pats, g->may_vanish * 2 + g->rc_neg); }
+        AP("m"); for (int k = 0; k < m->nmb; k++) { msg_t *g = &MSG[m->mb[k].msg]; unsigned cur = 0; for (int q = 0; q < NPAT; q++) if ((m->mb[k].pats & (1u << q)) && m->sub[q].present && (unsigned char)m->sub[q].gen == m->mb[k].gens[q]) cur |= 1u << q;      /* sent under the subscription object that is still there */
+            AP("%d.%d.%d.%d.%d.%x.%d.%x.%x,", g->sender + 1, g->topic, g->sys, g->autofree, m->mb[k].optional, m->mb[k].pats, g->may_vanish * 2 + g->rc_neg, cur, m->mb[k].oneshots); }
         AP("b%zu.%d.%d.%d.%d", m->batch_size, m->batch_tmo, m->batch_fired, m->ever_batched, m->batch_due != 0); AP("u%d", m->ba_unsure);
         AP("st"); for (int k = 0; k < m->nst; k++) { evrec_t *r = &EV[m->stash[k]]; AP("%d.%d,", r->kind, r->kind == 0 ? MSG[r->msg].sender + 1 : r->key); }
         AP("h"); for (int k = 0; k < m->nhs; k++) AP("%d", m->hs[k]);
